@@ -177,12 +177,12 @@ func c03Pctx(f []string, reqID uint64) (pctx *proxy.DNSContext) {
 	sni := vutil.Unhex(f[7])
 	connOK := vutil.UnB(f[8])
 	nq := vutil.Atoi(f[9])
-	// f[10] is the oracle bit; f[11], f[12] are the query name and type.
-	qname, qtype := vutil.Unhex(f[11]), uint16(vutil.Atoi(f[12]))
+	// f[10] is the oracle bit; f[11], f[12], f[13] are the query name, type and class.
+	qname, qtype, qclass := vutil.Unhex(f[11]), uint16(vutil.Atoi(f[12])), uint16(vutil.Atoi(f[13]))
 
 	req := &dns.Msg{MsgHdr: dns.MsgHdr{Id: uint16(reqID), RecursionDesired: true}}
 	for k := 0; k < nq; k++ {
-		req.Question = append(req.Question, dns.Question{Name: qname, Qtype: qtype, Qclass: dns.ClassINET})
+		req.Question = append(req.Question, dns.Question{Name: qname, Qtype: qtype, Qclass: qclass})
 	}
 
 	pctx = &proxy.DNSContext{Proto: proto, Req: req, RequestID: reqID}
@@ -459,6 +459,8 @@ var c03HostRules = []string{
 	"blocked.example", "*.wild.example", "||sub.example^", "||*^$dnstype=HTTPS", "|.^", "UPPER.Example",
 	"1.2.3.4 hostsfile.example", "@@||exception.example^", "||tld^", "/regex[0-9]+\\.example/", "! comment",
 	"part", "||a.b.c.example^$dnstype=AAAA",
+	// the default blocked hosts of AdGuard Home, normally asked in class CH
+	"version.bind", "id.server", "hostname.bind", "version.bind", "Hostname.Bind",
 }
 
 var c03QNames = []string{
@@ -466,9 +468,31 @@ var c03QNames = []string{
 	"sub.example.", "a.sub.example.", "notsub.example.", "other.org.", ".", "upper.example.", "UPPER.EXAMPLE.",
 	"hostsfile.example.", "exception.example.", "x.tld.", "regex42.example.", "party.example.", "a.b.c.example.",
 	"blocked.example", "",
+	"version.bind.", "VERSION.BIND.", "version.bind", "Id.Server.", "hostname.bind.", "HostName.Bind", "x.version.bind.",
 }
 
-var c03QTypes = []uint16{dns.TypeA, dns.TypeA, dns.TypeAAAA, dns.TypeHTTPS, dns.TypeNS, dns.TypePTR, dns.TypeANY}
+var c03QTypes = []uint16{
+	dns.TypeA, dns.TypeA, dns.TypeAAAA, dns.TypeHTTPS, dns.TypeNS, dns.TypePTR, dns.TypeANY, dns.TypeTXT, dns.TypeTXT,
+	dns.TypeSVCB, dns.TypeSOA, 65280,
+}
+
+// c03QClass draws the class of a question: the property holds for every class.
+func c03QClass(r *rand.Rand) uint16 {
+	switch r.IntN(10) {
+	case 0, 1, 2, 3:
+		return dns.ClassINET
+	case 4, 5:
+		return dns.ClassCHAOS
+	case 6:
+		return dns.ClassHESIOD
+	case 7:
+		return dns.ClassNONE
+	case 8:
+		return dns.ClassANY
+	default:
+		return uint16(r.IntN(65536))
+	}
+}
 
 const c03QPerBlock = 16
 
@@ -667,7 +691,8 @@ func c03Gen(r *rand.Rand, emit vutil.Emit) {
 					addrHex, zone = hex.EncodeToString(ip.AsSlice()), vutil.Hex(ip.Zone())
 				}
 				emit("C03.q", proto, kind, addrHex, zone, vutil.B(hasPath), vutil.Hex(p), vutil.Hex(sni), vutil.B(connOK),
-					vutil.Itoa(nQuestions), vutil.B(oracle.blocked(qname, qtype)), vutil.Hex(qname), vutil.Itoa(int(qtype)))
+					vutil.Itoa(nQuestions), vutil.B(oracle.blocked(qname, qtype)), vutil.Hex(qname), vutil.Itoa(int(qtype)),
+					vutil.Itoa(int(c03QClass(r))))
 				lines++
 			}
 		}
